@@ -206,3 +206,25 @@ Theorem C08_hybrid_checker_sound :
   forall gs refs cols, C08_hybrid_checkb gs refs cols = true -> C08_hybrid_spec gs refs cols.
 Proof. exact C08_hybrid_checkb_sound. Qed.
 Print Assumptions C08_hybrid_checker_sound.
+
+(* ---- composition with C01 (ComposeFullyShard.v): the per-block computation instantiated with the optimizer model -------
+   for every rank, every list of global shapes, every history: the FullyShard rank's parameters, block states and step count
+   are those produced by iterating the documented group step (Optimizer.group_step) over the blocks of its non-empty
+   local tensors *)
+From Shampoo Require Scalar Optimizer OptimizerMasks ComposeMasks ComposeFullyShard.
+Theorem C08_fully_shard_rank_is_group_step_iteration :
+  forall F (Op : Scalar.ops F) (c : Optimizer.cfg (F:=F)) (nblk : list Z -> nat) (nextra : nat) (gshapes : list (list Z)) (n r : nat)
+         (vals : list (OptimizerMasks.ovalue (F:=F))) (sts : list (OptimizerMasks.ostate (F:=F)))
+         (hs : list (Optimizer.hints (F:=F) * pgrads (OptimizerMasks.ograd (F:=F)))),
+    let ls := map (local_shape n r) gshapes in
+    let locals := locals_of ls in
+    let lay := all_local_layout nextra (map nblk locals) in
+    length vals = lsum (map nblk locals) -> length sts = lsum (map nblk locals) ->
+    Forall (fs_wf_input nblk ls) (map snd hs) ->
+    Forall (fun p => ComposeMasks.uniform_l (fst p) (local_grads lay (restrict ls (snd p)))) hs ->
+    exists s,
+      fs_run nblk (OptimizerMasks.opt_bstep Op c) nextra ls (init_state (fs_layout nblk nextra ls) vals sts) (map snd hs) = Ok s
+      /\ (let '(t', vals', sts') := observable s in (t', ComposeMasks.mk_blocks vals' sts'))
+         = ComposeMasks.model_run_l Op c (map (fun p => (fst p, local_grads lay (restrict ls (snd p)))) hs) 0%Z (ComposeMasks.mk_blocks vals sts).
+Proof. exact @ComposeFullyShard.fully_shard_rank_is_group_step_iteration. Qed.
+Print Assumptions C08_fully_shard_rank_is_group_step_iteration.
